@@ -351,7 +351,7 @@ Next == /\ l <= Len(TraceLog)
         /\ LET e == TraceLog[l]
                cur == IF e.i = 0 THEN <<>> ELSE sealed
            IN sealed' = IF e.op.op \in {"create", "createsf"}
-                        THEN SealedNext(cur, DiskOf(e.pre.disk), Wrote(HistOf(e.pre.hist), HistOf(e.post.hist)), OpOf(e.op), e.exit, HistOf(e.post.hist))
+                        THEN SealedNext(cur, DiskOf(e.pre.disk), Wrote(HistOf(e.pre.hist), HistOf(e.post.hist)), OpOf(e.op), e.exit, HistOf(e.post.hist), SeqSet(e.ign))
                         ELSE cur
 Spec == Init /\ [][Next]_<<l, sealed>>
 =============================================================================
